@@ -218,8 +218,15 @@ output_instance(std::ostream &out, int indent_level, CPPScope *scope,
 
   std::string bracketsstr = brackets.str();
 
-  _element_type->output_instance(out, indent_level, scope, complete,
-                                 prename, name + bracketsstr);
+  if (prename.empty()) {
+    _element_type->output_instance(out, indent_level, scope, complete,
+                                   prename, name + bracketsstr);
+  } else {
+    // The prefix operators of a pointer or reference to an array have to be
+    // applied before the brackets.
+    _element_type->output_instance(out, indent_level, scope, complete,
+                                   "", "(" + prename + name + ")" + bracketsstr);
+  }
 }
 
 /**
